@@ -337,7 +337,7 @@ _add(
          "and compare every output and the complete final state (all state-dict entries incl. extras and non-persistent "
          "buffers) exactly. One evaluation = one checkpoint position; distinct = (layer, trainer, reducer, classifier, "
          "target kind, position class, delay, in-place).",
-    required=["cloned_targets", "checkpoint_positions_checked", "restored_steps_compared", "final_states_compared", "phase_mismatch_probes", "checkpoints_with_pending_updates", "checkpoints_of_histories_grown_by_setters"],
+    required=["cloned_targets", "checkpoint_positions_checked", "restored_steps_compared", "final_states_compared", "phase_mismatch_probes", "checkpoints_with_pending_updates", "checkpoints_of_histories_grown_by_setters", "checkpoints_after_in_place_changes_of_trainer_buffers"],
     floor={"quick": 20, "thorough": 120},
     shards={"quick": 8, "thorough": 32},
     exhaustive={"quick": ["every checkpoint position k in 0..T of each generated run"], "thorough": ["every checkpoint position k in 0..T of each generated run"]},
@@ -375,7 +375,7 @@ _add(
          "expected number of folds (1 iff trainer and that cell's layer are training, else 0) and probe monitors for "
          "holding the current attribute of their own layer. One evaluation = one operation; non-trivial = everything but "
          "bare mode switches; distinct = (operation, trainer kind, layer, registration counts, sharing, modes).",
-    required=["layer_steps", "slot_observations_checked", "probe_values_checked", "trainer_steps", "listing_checks", "rejected_duplicate_registrations", "cells_died_without_removal", "unit_listing_checks", "repeated_add_monitor_calls", "probes_of_other_monitor_kinds"],
+    required=["layer_steps", "slot_observations_checked", "probe_values_checked", "trainer_steps", "listing_checks", "rejected_duplicate_registrations", "cells_died_without_removal", "unit_listing_checks", "repeated_add_monitor_calls", "probes_of_other_monitor_kinds", "probes_on_cell_alias_attributes"],
     floor={"quick": 100, "thorough": 300},
     text="Held on every operation sequence explored (apart from listed findings): fold counts per registered monitor "
          "slot follow an explicit registration / mode state machine after every layer step, probe monitors hold the "
